@@ -2,8 +2,10 @@ package harness
 
 import (
 	"fmt"
+	"github.com/teleport-network/teleport/syscontracts"
 	"math/big"
 	"os"
+	"sort"
 	"strings"
 	"testing"
 
@@ -60,8 +62,10 @@ func (w *World) pktInfo(k string, call string, fee int64) []interface{} {
 		}
 	}
 	cb := "none"
-	if p.CallbackAddress != "" && !strings.EqualFold(p.CallbackAddress, zeroAddr.String()) {
-		cb = "bad" // the only callback contract these behaviours use has no callback function
+	if strings.EqualFold(p.CallbackAddress, syscontracts.AgentContractAddress) {
+		cb = "agent" // a packet the agent contract sent (nested in a receive): the agent is sender and callback
+	} else if p.CallbackAddress != "" && !strings.EqualFold(p.CallbackAddress, zeroAddr.String()) {
+		cb = "bad" // the only other callback contract these behaviours use has no callback function
 	}
 	return []interface{}{w.absName(p.SrcChain), w.absName(p.DstChain), p.Sequence, kind, amt, call, fee, cb}
 }
@@ -136,8 +140,27 @@ func driveXIBC(t *testing.T, in, out string, seed int64) {
 			case "Recv":
 				m := MsgSpec{On: on, Src: str(st["src"]), Dst: str(st["dst"]), Seq: uint64(num(st["seq"])), Alt: str(st["alt"]),
 					PH: int(num(st["ph"])), Proof: str(st["proof"]), Signer: signerIdx(str(st["signer"]))}
+				before := map[string]bool{}
+				for k := range w.Sent {
+					before[k] = true
+				}
 				r, triple, truth, p := w.Recv(m)
 				line["res"], line["msg"] = resOf(r), clip(r.Log)
+				// packets the chain emitted while executing this receive (a send nested in the callback)
+				nested := []interface{}{}
+				var newKeys []string
+				for k := range w.Sent {
+					if !before[k] {
+						newKeys = append(newKeys, k)
+					}
+				}
+				sort.Strings(newKeys)
+				for _, k := range newKeys {
+					if info := w.pktInfo(k, "none", 0); info != nil {
+						nested = append(nested, info)
+					}
+				}
+				line["nested"] = nested
 				line["sig"] = fmt.Sprintf("Recv/%s/%s/%s", m.Alt, m.Proof, str(st["signer"]))
 				line["t"] = []interface{}{w.absName(p.SrcChain), w.absName(p.DstChain), p.Sequence}
 				_ = triple
